@@ -34,7 +34,7 @@ def run(ctx, prop="C08"):
     fzf = ctx.build_fzf(race=race)
     fzf_oracle = ctx.build_fzf() if race else fzf
     rng = ctx.rng
-    nsess = ctx.pick(14, 120) if not race else ctx.pick(10, 80)
+    nsess = ctx.pick(14, 600) if not race else ctx.pick(10, 400)
     jobs = []
     for sid in range(nsess):
         n = rng.choice([3, 40, 150, 150, 1200, 1200, 8000] + ([40000] if not ctx.quick else []))
